@@ -269,6 +269,7 @@ def run(ctx):
     from rules import c17
     c17.rule_args(ctx, R="C07/reader-args")
     c17.rule_prefix_only(ctx, R="C07/reader-prefix-only")
+    c17.rule_reader_identity(ctx, R="C07/reader-identity")   # ... of THIS target: every reader is built for an identity of the target
     # "every application-requested region": the requested list reaches the writer as the caller gave it
     from rules import c19
     n = c19.rule_setters_verbatim(ctx, R="C07/requested-list-verbatim", only=("app_memory",))
